@@ -40,11 +40,16 @@ def _parse_time(value):
 
 
 def _parse_data(value):
-    if not value.startswith('(') and value.endswith(')'):
+    if not (value.startswith('(') and value.endswith(')')):
         raise ValueError('missing parentheses in data message')
 
+    value = value[1:-1]
+    if not value:
+        # Empty data: ''.split(',') would give [''].
+        return []
+
     try:
-        return [int(byte) for byte in value[1:-1].split(',')]
+        return [int(byte) for byte in value.split(',')]
     except ValueError as ve:
         raise ValueError('unable to parse data bytes') from ve
 
